@@ -6,7 +6,7 @@
    later in the list, a timer may run long after it woke up (also after it was cancelled meanwhile).
    `Inv` (Proofs.v) holds in every reachable state (C10_invariant).  Examples.v (imported so that it is
    re-checked) replays the defects of the code before the fix on variant Legacy. *)
-From CF Require Import Common.Bytes C10.Model C10.Proofs C10.Proofs_b C10.Proofs_c C10.Proofs_e C10.Proofs_f C10.Lock C10.Examples.
+From CF Require Import Common.Bytes C10.Model C10.Proofs C10.Proofs_b C10.Proofs_c C10.Proofs_e C10.Proofs_f C10.Lock C10.DriverClose C10.Examples.
 Open Scope Z_scope.
 
 (* Every reachable state: patterns are distinct keys; each pending pattern has a live (armed or
@@ -261,3 +261,25 @@ Theorem C10_link_error_during_driver_call_leaves_no_timer : forall lv s,
   (forall j t, nth_error (timers (base s')) j = Some t -> t_status t <> Armed) /\ holder s' = holder s.
 Proof. exact link_error_during_driver_call_leaves_no_timer. Qed.
 Print Assumptions C10_link_error_during_driver_call_leaves_no_timer.
+
+(* ---- the driver side of "nothing is ever transmitted on a closed link" (C10/DriverClose.v) ---- *)
+(* close() of a driver object makes device calls that may raise (it swallows the exception): the object is closed on
+   EVERY path, for every placement of the fault. *)
+Theorem C10_driver_close_always_closes : forall s f, handle (fst (dstep ClearAlways s (DClose f))) = None.
+Proof. exact close_always_closes. Qed.
+Print Assumptions C10_driver_close_always_closes.
+
+(* After close() returned, no send_packet / receive_packet / close on that object writes anything to the device, for all
+   later histories and fault placements, until the object is connected again ... *)
+Theorem C10_closed_driver_writes_nothing : forall ops s, handle s = None -> no_connect ops ->
+  written (fst (drun ClearAlways s ops)) = written s /\ handle (fst (drun ClearAlways s ops)) = None /\
+  Forall (fun r => r = 0) (snd (drun ClearAlways s ops)).
+Proof. exact closed_driver_writes_nothing. Qed.
+Print Assumptions C10_closed_driver_writes_nothing.
+
+(* ... and it can be connected again. *)
+Theorem C10_closed_driver_can_reconnect : forall s f,
+  let s1 := fst (dstep ClearAlways s (DClose f)) in
+  snd (dstep ClearAlways s1 DConnect) = 0 /\ handle (fst (dstep ClearAlways s1 DConnect)) = Some (nconn s).
+Proof. exact closed_driver_can_reconnect. Qed.
+Print Assumptions C10_closed_driver_can_reconnect.
